@@ -547,7 +547,11 @@ func run(c *eng.Ctx) error {
 	c.Stats["handshake_classes"] = len(allHsCases())
 	c.Stats["child_spawns"] = w.spawns
 	c.Stats["child_deaths"] = w.crashes
+	// thorough: every handshake class and every message class of the grammar outside the known-defect classes was
+	// delivered to every victim kind (concrete values inside a class are sampled); the known-defect classes are
+	// covered by representative dedicated scenarios only
 	c.Stats["exhaustive"] = c.Tier == "thorough" && c.Only < 0
+	c.Stats["exhaustive_scope"] = "case grammar minus KnownDefectH/KnownDefectM classes, x 3 victim kinds"
 	if len(w.crashes) > 0 {
 		fmt.Printf("NOTE c14: %d child process(es) died on an input; first: %s\n", len(w.crashes), w.crashes[0])
 	}
